@@ -30,7 +30,7 @@ CONSTANTS Values,       \* sample values of a variable
           TrialReset,   \* BOOLEAN: reset before every trial
           FinalReset    \* BOOLEAN: reset when the run completes
 Perts == <<"p1", "p2">>
-NaN == "nan"
+NaN == -1                 \* the undefined operand value (operand values are >= 0)
 VARIABLES lens, kinds, stream, compf, fail,      \* the lens; the environment's choices (fixed)
           idx, pos,                              \* sampler state: range index per perturbation, stream position
           pval,                                  \* Perturbation.value per perturbation
